@@ -32,7 +32,8 @@ DefaultFlow == "DEFAULT_FLOW"
 
 \* host state: m the machine (current flow and shared state), cur its flow's name, others the flows not current
 \* (name -> flow record), slots the host's saved states
-Init == [m |-> S!Start, cur |-> DefaultFlow, others |-> <<>>, slots |-> <<>>]
+\* obs: the registered (observer, variable) pairs; async: a time-limited continue has been started and not finished
+Init == [m |-> S!Start, cur |-> DefaultFlow, others |-> <<>>, slots |-> <<>>, obs |-> <<>>, async |-> FALSE]
 
 FlowOf(m) == [th |-> m.th, out |-> m.out, ch |-> m.ch, st |-> m.st, safe |-> m.safe]
 WithFlow(m, f) == [m EXCEPT !.th = f.th, !.out = f.out, !.ch = f.ch, !.st = f.st, !.safe = f.safe]
@@ -90,6 +91,33 @@ Load(h, slot) ==
   IF slot \notin DOMAIN h.slots THEN Refused(h)        \* (the harness hands over an empty document)
   ELSE LET d == h.slots[slot] IN Ok([h EXCEPT !.m = d.m, !.cur = d.cur, !.others = d.others])
 Reset(h) == Ok([h EXCEPT !.m = S!Start, !.cur = DefaultFlow, !.others = <<>>])
+
+\* ---------------------------------------------------------------- variable observers (C11)
+\* obs is a bag: registering the same observer for the same variable again means being told again
+Observe(h, id, var) ==
+  IF var \notin DOMAIN h.m.vars THEN Refused(h)
+  ELSE LET p == <<id, var>> IN Ok([h EXCEPT !.obs = (p :> (IF p \in DOMAIN h.obs THEN h.obs[p] + 1 ELSE 1)) @@ h.obs])
+Unobserve(h, id, var) ==
+  IF <<id, var>> \notin DOMAIN h.obs THEN Refused(h)
+  ELSE LET q == <<id, var>> IN       \* one registration is taken away
+       Ok([h EXCEPT !.obs = IF h.obs[q] > 1 THEN [h.obs EXCEPT ![q] = h.obs[q] - 1]
+                            ELSE [p \in (DOMAIN h.obs) \ {q} |-> h.obs[p]]])
+\* What the observers are told when a continue completes: every watcher of a global that was given a DIFFERENT value
+\* during it - in the part that was kept, not in look-ahead that was rewound - exactly once per registration, with the
+\* final value (must).  A global that was assigned a value equal to the one it had may or may not count as changed
+\* (the engine goes by the identity of the value object): its watchers are told all or not at all (may).
+Told(h, vars, names) == [t \in {<<p[1], p[2], vars[p[2]]>> : p \in {q \in DOMAIN h.obs : q[2] \in names}} |-> h.obs[<<t[1], t[2]>>]]
+NotesAfterCont(h, m) == [must |-> Told(h, m.vars, m.dirty), may |-> Told(h, m.vars, m.touched)]
+\* a host assignment tells the watchers of that variable at once; reset re-initialises every global
+NotesAfterSet(h, name, v) ==
+  LET t == IF name \in DOMAIN h.m.vars THEN Told(h, S!Put(h.m.vars, name, v), {name}) ELSE <<>> IN [must |-> t, may |-> t]
+NotesAfterReset(h) == LET t == Told(h, S!Start.vars, DOMAIN S!Start.vars) IN [must |-> t, may |-> t]
+NoNotes == [must |-> <<>>, may |-> <<>>]
+\* rec: the recorded notifications, a sequence of <<observer, variable, value>>
+NotesOk(rec, n) ==
+  LET cnt(t) == Cardinality({i \in DOMAIN rec : rec[i] = t}) IN
+  /\ \A i \in DOMAIN rec : rec[i] \in DOMAIN n.may
+  /\ \A t \in DOMAIN n.may : IF t \in DOMAIN n.must THEN cnt(t) = n.may[t] ELSE cnt(t) \in {0, n.may[t]}
 
 \* ---------------------------------------------------------------- evaluate_function
 \* The host runs a function of the story: a frame of its own kind is pushed on the current thread, the output so far is
